@@ -117,6 +117,25 @@ func newC11Monitor(sc *Scen) *c11Monitor {
 			}
 		}
 	})
+	// the same clause at the end of every completed manager iteration (the list may have been written while the marked
+	// host still was the recorded master, and the master key moved afterwards)
+	s.OnIter(func(inst, state, next string, begin bool) {
+		if begin || state != "Manager" || next != "Manager" {
+			return
+		}
+		a := s.ActiveNodesCached()
+		master := s.CachedMaster()
+		m.mu.Lock()
+		defer m.mu.Unlock()
+		for _, h := range a {
+			if _, mk := m.marked[h]; mk && h != master {
+				if _, still := s.Cached("recovery/" + h); still {
+					m.sc.Violate("C11", "marked-host-in-active-list-after-iteration", fmt.Sprintf("after a completed manager iteration of %s the published list %v contains %s, which is marked for recovery and is not the recorded master %s", inst, a, h, master))
+				}
+			}
+		}
+		m.sc.Cover("list-judged-after-iteration")
+	})
 	// the host's own check: its recoveryChecker reads recovery/<self> every interval
 	s.OnDCS(func(inst, method, path, arg, res string) {
 		in := s.InstByName(inst)
@@ -173,6 +192,10 @@ func c11Run(u *Unit) {
 		Cfg: func(host string, c *config.Config) {
 			c.FailoverDelay = 5 * time.Second
 			c.InactivationDelay = 10 * time.Second
+			if sp.Family == "failover_return" && (u.Idx/5)%2 == 1 {
+				// the failover completes while the dead master is still inside the grace period of the list
+				c.InactivationDelay = 40 * time.Second
+			}
 		}}
 	u.Scenario(fmt.Sprintf("c11-%d-%s-%s-%s", u.Idx, sp.Family, sp.Relation, sp.Repl), sp, opts, func(sc *Scen) {
 		s := sc.S
